@@ -27,6 +27,8 @@ EXPLANATION = (
     'R3 flush_pre_post empties both queues on every path, walks pre forward keeping the first and post backward keeping the last '
     'occurrence, drops container entries named in either override set and assembles pre + kept + post; __iadd__ prepends a batch in its own order. '
     'R4 the routing table of extend_preserving_lflags: exactly the -l/-L arguments outside always_dedup_args take the direct route. '
+    'R5 a method that selects `X = self.copy() if flag else self` (to_native) applies every change through X, none to self by name; '
+    'R6 __add__/__radd__ build a fresh object from the left operand and add the right one with += (no raw splice, operand order kept). '
     'Does NOT decide the equivalence of lazy and eager meaning over operation sequences (a run-time relation), the classification of concrete argument '
     'strings (only the tables, the chain and the regex language are decided, no body is evaluated on sample arguments), the DCompilerArgs tables, nor the callers in the backends. '
     'Out of scope by design (not armed): the constructor and list + CompilerArgs take the initial list verbatim (copy() depends on it), '
@@ -318,9 +320,206 @@ def r1(ctx: RuleCtx) -> None:
         raise Undecided('; '.join(undecided[:4]))
 
 
+# ---------------------------------------------------------------------------------------------------------------
+# R5: a method that works on `X = self.copy() if flag else self` must not change `self` by name (to_native(copy=True)
+#     is a read: "reads and copies in between" must leave the list as it was)
+# ---------------------------------------------------------------------------------------------------------------
+ABC_MUTATORS = {'pop', 'remove', 'clear', 'reverse', 'sort', 'append', 'extend', 'insert', '__iadd__', '__setitem__', '__delitem__'}
+LIST_MUTATORS = {'append', 'extend', 'insert', 'pop', 'remove', 'clear', 'sort', 'reverse', 'appendleft', 'extendleft', 'popleft', '__setitem__', '__delitem__'}
+
+
+def _mutating_methods(fam: lazy.Family) -> T.Dict[T.Tuple[str, str], bool]:
+    """(class key, method) -> does calling it change the logical content of self?  Fixpoint over the call graph; the flush
+    (and helpers that inherit its role) only changes the representation."""
+    mut: T.Dict[T.Tuple[str, str], bool] = {}
+    keys = [fam.cls_key(m, c) for m, c in fam.members]
+
+    def direct(fn: T.Any) -> bool:
+        for n in walk_no_nested(fn, include_root=False):
+            if isinstance(n, ast.Attribute) and attr_chain(n.value) == 'self' and n.attr in STORES and isinstance(n.ctx, (ast.Store, ast.Del)):
+                return True
+            if isinstance(n, ast.Subscript) and isinstance(n.ctx, (ast.Store, ast.Del)) and attr_chain(n.value) in ('self', 'self._container', 'self.pre', 'self.post'):
+                return True
+            if isinstance(n, ast.AugAssign) and attr_chain(n.target) in ('self', 'self._container', 'self.pre', 'self.post'):
+                return True
+            if isinstance(n, ast.Call) and isinstance(n.func, ast.Attribute) and attr_chain(n.func.value) in ('self._container', 'self.pre', 'self.post') \
+                    and n.func.attr in LIST_MUTATORS:
+                return True
+        return False
+    for _ in range(8):
+        changed = False
+        for ck in keys:
+            for meth in fam.all_methods(ck):
+                found = fam.find(ck, meth)
+                if found is None or fam.roles.get(meth) == 'flush':
+                    continue
+                fn = found[2]
+                val = direct(fn)
+                if not val:
+                    for n in walk_no_nested(fn, include_root=False):
+                        if isinstance(n, ast.Call) and isinstance(n.func, ast.Attribute) and attr_chain(n.func.value) == 'self':
+                            callee = n.func.attr
+                            if fam.roles.get(callee) == 'flush':
+                                continue
+                            if fam.find(ck, callee) is not None:
+                                val = val or mut.get((ck, callee), False)
+                            elif callee in ABC_MUTATORS:
+                                val = True
+                if mut.get((ck, meth), False) != val and val:
+                    mut[(ck, meth)] = True
+                    changed = True
+                mut.setdefault((ck, meth), val)
+        if not changed:
+            break
+    return mut
+
+
+def r5(ctx: RuleCtx) -> None:
+    fam = family(ctx.repo)
+    mut = _mutating_methods(fam)
+    n_sel = 0
+    for m, c in fam.members:
+        ck = fam.cls_key(m, c)
+        for st in c.body:
+            if not isinstance(st, (ast.FunctionDef, ast.AsyncFunctionDef)):
+                continue
+            qn = f'{c.name}.{st.name}'
+            an = lazy.Analysis(fam, m, st, qn, ck)
+            # a local that is bound to `self` on one arm and to a fresh copy of self on another
+            srcs: T.Dict[str, T.Set[str]] = {}
+            for a_, b_ in an._assign_pairs():
+                srcs.setdefault(a_, set()).add(b_ or '?')
+            selected = sorted(x for x, v in srcs.items() if 'self' in v and any(y == '<recv>self' for y in v))
+            if not selected:
+                continue
+            n_sel += 1
+            bad: T.List[T.Tuple[ast.AST, str]] = []
+            for n in walk_no_nested(st, include_root=False):
+                why = None
+                if isinstance(n, ast.Call) and isinstance(n.func, ast.Attribute) and attr_chain(n.func.value) == 'self':
+                    callee = n.func.attr
+                    if fam.roles.get(callee) == 'flush' or callee == 'copy':
+                        continue
+                    if fam.find(ck, callee) is not None:
+                        if mut.get((ck, callee), False):
+                            why = f'self.{callee}(...) changes the list'
+                    elif callee in ABC_MUTATORS:
+                        why = f'self.{callee}(...) (MutableSequence) changes the list'
+                    elif callee.startswith('__') or callee in lazy.ABC_MIXINS:
+                        continue
+                    else:
+                        raise Undecided(f'{qn}: self.{callee}(...) cannot be resolved; cannot tell whether it changes self')
+                elif isinstance(n, ast.AugAssign) and attr_chain(n.target) == 'self':
+                    why = '`self += ...`'
+                elif isinstance(n, ast.Subscript) and isinstance(n.ctx, (ast.Store, ast.Del)) and attr_chain(n.value) == 'self':
+                    why = 'item assignment/deletion on self'
+                elif isinstance(n, ast.Attribute) and attr_chain(n.value) == 'self' and n.attr == lazy.STORE and isinstance(n.ctx, (ast.Store, ast.Del)):
+                    why = 'self._container is replaced'
+                elif isinstance(n, ast.Call) and isinstance(n.func, ast.Attribute) and attr_chain(n.func.value) == 'self._container' and n.func.attr in LIST_MUTATORS:
+                    why = f'self._container.{n.func.attr}(...)'
+                if why:
+                    bad.append((n, why))
+            for n, why in bad:
+                ctx.violation(m, qn, n, f'{qn} works on `{selected[0]}`, which is a copy of self when a copy was asked for, but {why} by name: '
+                              f'with the copy requested the original list is modified (and `{selected[0]}` is not)', n)
+            if not bad:
+                ctx.ok(f'{m.rel}: {qn}: all changes go through `{selected[0]}` (self or its copy), none is applied to self by name')
+    if n_sel == 0:
+        raise Undecided('no method selects between self and a copy of self; the copy-isolation clause has nothing to read')
+    ctx.floor('methods that select between self and a copy', n_sel, 1)
+
+
+# ---------------------------------------------------------------------------------------------------------------
+# R6: `+` and reflected `+` are defined through `+=` on a fresh object (so the operand added last gets the
+#     prepend/override/once-only treatment), never by splicing raw
+# ---------------------------------------------------------------------------------------------------------------
+def r6(ctx: RuleCtx) -> None:
+    fam = family(ctx.repo)
+    mod, root = fam.root
+    for name, fresh_from, added in (('__add__', 'self', 'ARG'), ('__radd__', 'ARG', 'self')):
+        found = fam.find(fam.cls_key(mod, root), name)
+        if found is None:
+            raise Undecided(f'{root.name}.{name} is not defined in the family')
+        fm, fc, fn0 = found
+        qn = f'{fc.name}.{name}'
+        fn = tabs._inline(fm, fc.name, fn0)
+        params = [a.arg for a in fn.args.args if a.arg != 'self']
+        if len(params) != 1:
+            raise Undecided(f'{qn}: expected one operand')
+        other = params[0]
+        role = {'self': 'self', 'ARG': other}
+        paths = [p for p in enumerate_paths(fn.body, unroll=1) if p.outcome == 'return']
+        if not paths:
+            raise Undecided(f'{qn}: no returning path')
+        n_ok = 0
+        for p in paths:
+            if p.value is None or not isinstance(p.value, ast.Name):
+                raise Undecided(f'{qn}: returns `{short(p.value)}`, not a local holding the new object')
+            r = p.value.id
+            origin: T.Optional[str] = None
+            added_ok = False
+            raw: T.Optional[ast.AST] = None
+            for ev in p.events:
+                e = ev.node
+                if ev.kind == 'cond':
+                    continue
+                if ev.kind != 'stmt' or e is None:
+                    raise Undecided(f'{qn}: `{short(e, 50)}` on the path is outside the reference vocabulary')
+                if isinstance(e, ast.Return) or (isinstance(e, ast.Expr) and isinstance(e.value, ast.Constant)):
+                    continue
+                if isinstance(e, ast.Expr) and isinstance(e.value, ast.Call) and attr_chain(e.value.func) == f'self.{lazy.FLUSH}':
+                    continue
+                if isinstance(e, (ast.Assign, ast.AnnAssign)) and attr_chain(e.targets[0] if isinstance(e, ast.Assign) else e.target) == r and e.value is not None:
+                    v = e.value
+                    if isinstance(v, ast.Call) and attr_chain(v.func) == 'self.copy' and not v.args:
+                        origin = 'self'
+                    elif isinstance(v, ast.Call) and (norm(v.func) == 'type(self)' or fam.resolve_member(fm, attr_chain(v.func) or '?')) and len(v.args) == 2 \
+                            and attr_chain(v.args[1]) in ('self', other):
+                        origin = 'self' if attr_chain(v.args[1]) == 'self' else 'ARG'
+                    else:
+                        raise Undecided(f'{qn}: `{short(e, 60)}` is not a copy()/constructor of one operand')
+                    added_ok = False
+                    continue
+                if isinstance(e, ast.AugAssign) and attr_chain(e.target) == r and isinstance(e.op, ast.Add):
+                    if attr_chain(e.value) in ('self', other) and origin is not None and attr_chain(e.value) != role[origin]:
+                        added_ok = True      # the operand the object was not built from (which one it was is judged below)
+                        continue
+                    raise Undecided(f'{qn}: `{short(e, 60)}` adds something else than the other operand')
+                if isinstance(e, ast.Expr) and isinstance(e.value, ast.Call) and isinstance(e.value.func, ast.Attribute) and attr_chain(e.value.func.value) == r:
+                    mname = e.value.func.attr
+                    if mname == 'extend' and len(e.value.args) == 1 and attr_chain(e.value.args[0]) in ('self', other) and origin is not None \
+                            and attr_chain(e.value.args[0]) != role[origin]:
+                        added_ok = True
+                        continue
+                    if mname in ('insert', 'extend_direct', 'append_direct') or mname in LIST_MUTATORS:
+                        raw = raw or e
+                        continue
+                if isinstance(e, (ast.Assign, ast.Delete)) and any(isinstance(t, ast.Subscript) and attr_chain(t.value) in (r, f'{r}._container') for t in getattr(e, 'targets', [])):
+                    raw = raw or e
+                    continue
+                raise Undecided(f'{qn}: `{short(e, 60)}` on the path is outside the reference vocabulary')
+            if origin is None:
+                raise Undecided(f'{qn}: the returned `{r}` is not built on this path')
+            if raw is not None and not added_ok:
+                ctx.violation(fm, qn, raw, f'{qn} combines the operands with `{short(raw, 70)}`: a raw splice; the operand added last must go through `+=` so that its '
+                              '-I/-L are put in front and override-type / once-only duplicates are resolved', raw)
+                continue
+            if origin != fresh_from:
+                ctx.violation(fm, qn, p.value, f'{qn} starts from a copy of the {"right" if origin == "ARG" else "left"} operand and adds the other one: the operand order of '
+                              f'`{"list + args" if name == "__radd__" else "args + list"}` is reversed', fn0)
+                continue
+            if not added_ok:
+                raise Undecided(f'{qn}: the other operand is never added on a returning path')
+            n_ok += 1
+        if n_ok == len(paths):
+            ctx.ok(f'{fm.rel}: {qn}: fresh object from {"self" if fresh_from == "self" else "the left list"}, then `+=` of the other operand, on all {len(paths)} path(s)')
+
+
 RULES = [
     Rule('C13.R1', 'flush before access (receiver-sensitive typestate)', r1),
     Rule('C13.R2', 'classification tables: _can_dedup order and C-like tables', tabs.r2),
     Rule('C13.R3', 'merge polarity of flush_pre_post / __iadd__', tabs.r3),
     Rule('C13.R4', 'extend_preserving_lflags: only -l/-L outside always_dedup_args bypass de-duplication', tabs.r4),
+    Rule('C13.R5', 'copy isolation: a method working on self-or-copy never changes self by name', r5),
+    Rule('C13.R6', '+ and reflected + are defined through += on a fresh object', r6),
 ]
